@@ -148,6 +148,14 @@ def deduplicate(stix_obj_list):
     for obj in stix_obj_list:
         ver = obj.get("modified") or obj.get("created")
 
+        if isinstance(ver, str):
+            # Objects of unregistered types are dicts with timestamp text:
+            # a version is an instant, whatever its spelling.
+            try:
+                ver = parse_into_datetime(ver)
+            except ValueError:
+                pass
+
         if ver is None:
             unique_objs[obj["id"]] = obj
         else:
